@@ -51,7 +51,7 @@ TFill   == /\ Ev.a = "Fill" /\ Ev.res = "full" /\ Clean
            /\ out' = "full" /\ UNCHANGED total
 \* Churn: n temporary files outside the universe were created (until refusal) and removed again
 \* Hold: a read-write handle on an existing file is opened and kept across the following calls; nothing changes
-THold   == /\ Ev.a = "Hold" /\ Ev.res = "ok" /\ Clean /\ IsFile(Ev.p)
+THold   == /\ Ev.a = "Hold" /\ Clean /\ (Ev.res = "ok" => IsFile(Ev.p)) /\ Ev.res \in {"ok", "err"}       \* refused: e.g. the file does not exist
            /\ Api = tree /\ Api2 = tree /\ UNCHANGED vars
 TChurn  == /\ Ev.a = "Churn" /\ Ev.res = "ok" /\ Clean
            /\ Api = tree /\ Api2 = tree /\ UNCHANGED vars
